@@ -955,6 +955,35 @@ func ruleC06Const(c *ctx.Ctx, r *core.Reporter) {
 			}
 			ok := nums[4294967296] > 0 && strings.Contains(src, "this.$high") && strings.Contains(src, "this.$low = low >>> 0") && strings.Contains(src, ") "+wantOp+";")
 			r.Check(ok, "const:$newType:"+k, arm.Pos(), fmt.Sprintf("the %s constructor carries overflow of the low half with radix 4294967296, wraps $low with >>> 0 and $high with %s", k, wantOp))
+			// rounding agreement (F-SIB): `low >>> 0` (ToUint32) truncates toward zero, so the carry into the high
+			// word must be computed from low truncated toward zero as well
+			var div *ctx.JSNode
+			for _, st := range arm.L("consequent") {
+				st.Walk(func(n *ctx.JSNode) bool {
+					if n.Is("BinaryExpression") && n.S("operator") == "/" {
+						if v, ok := n.N("right").NumValue(); ok && v == 4294967296 && div == nil {
+							div = n
+						}
+					}
+					return true
+				})
+			}
+			if div == nil {
+				r.Info("round:$newType:"+k, arm.Pos(), "no division by 4294967296 found in the constructor (carry computed differently; not judged)")
+			} else {
+				num := squash(div.N("left").Src())
+				lowName := "low"
+				switch num {
+				case "Math.trunc(" + lowName + ")":
+					r.OK("round:$newType:"+k, div.Pos(), "the carry is floor(trunc(low) / 2^32): same rounding direction as `low >>> 0`")
+				case "Math.ceil(" + lowName + ")":
+					r.Violation("round:$newType:"+k, div.Pos(), "the carry is computed from Math.ceil(low) but the low word is `low >>> 0`, which truncates toward zero: for a positive fractional low just below a multiple of 2^32 (e.g. 4294967295.5) ceil carries 1 while the low word stays 4294967295 — the value is off by 2^32")
+				case "Math.floor(" + lowName + ")", lowName:
+					r.Violation("round:$newType:"+k, div.Pos(), "the carry is computed from "+num+" (rounding toward -inf) but the low word is `low >>> 0`, which truncates toward zero: for a negative fractional low (e.g. -0.5) the carry is -1 while the low word is 0 — the value is off by 2^32")
+				default:
+					r.Info("round:$newType:"+k, div.Pos(), "carry numerator "+num+" is not a form the checker knows (not judged)")
+				}
+			}
 		}
 	}
 	// compiler constant splitting: d>>32 and d&(1<<32-1) on both paths
